@@ -163,9 +163,11 @@ UNPROVED += [
     'finding; proved under Perm.RPDistinct: the (score, count) sort keys separate ALL pairs)',
     'rename_equivariant_thresholds_quota_selector_under_noninjective: n/a (proved for every renaming)',
     'hash_seed_independence (not expressible in a Lean model; sampled)',
+    'perm_rename_invariant_by_party (ByParty on constituency-nested votes: decided by the oracle under renamings of the parties - names '
+    'containing one another, ints, reversed order - and permutations of constituencies and parties; the laws of the wrapper itself are C14)',
 ]
 UNPROVED = [u for u in UNPROVED if not u.startswith('rename_equivariant_thresholds')]
-REQUIRED_COUNTERS = ['perm', 'rename', 'rename_int', 'rename_person', 'mj_partial_heavy', 'pure_cap_and_floor', 'reverse_sort_rename', 'hashseed', 'modelled', 'symmetric_pair', 'all_perms', 'symmetric_profile']
+REQUIRED_COUNTERS = ['perm', 'rename', 'rename_int', 'rename_person', 'mj_partial_heavy', 'pure_cap_and_floor', 'reverse_sort_rename', 'hashseed', 'modelled', 'symmetric_pair', 'all_perms', 'symmetric_profile', 'by_party', 'rename_names_containing_each_other']
 RULE = ('every deterministic evaluator family x generated profiles (2-5 candidates) x 3 permutations of insertion order x 3 bijective '
         'renamings (one reversing string sort order, one to multi-character random names, one permuting the base names) in-process, and a '
         'sample of the cases in subprocesses under PYTHONHASHSEED in {0,1,2,3,random}; small profiles (<= 3 entries quick, <= 4 thorough) under '
@@ -349,6 +351,11 @@ def _run_hashseed(seed, lines):
 
 
 def impl(case):
+    if case['op'] == 'by_party':
+        nc = len(case['votes'])
+        ident = [list(range(nc)), list(range(5))]
+        return {'base': _run_by_party(case, None, ident), 'perms': [_run_by_party(case, None, o) for o in case['orders']],
+                'renamed': [_run_by_party(case, nm, ident) for nm in NESTED_NAMINGS[1:]]}
     f = fams().get(case['family']) or {x.name: x for x in fam_mod.families()}[case['family']]
     base_names = Names(prefix='cand')
     if case['op'] == 'symmetric':
@@ -381,6 +388,17 @@ def _multiset(kind, obs):
 
 
 def oracle(case, obs):
+    if case['op'] == 'by_party':
+        out = []
+        for o in obs['perms']:
+            if o != obs['base']:
+                out.append(('depends_on_ballot_order', f'ByParty: {json.dumps(obs["base"])} vs {json.dumps(o)} under another order of constituencies / parties'))
+                break
+        for nm, o in zip(NESTED_NAMINGS[1:], obs['renamed']):
+            if o != obs['base']:
+                out.append(('depends_on_candidate_names', f'ByParty: {json.dumps(obs["base"])} vs {json.dumps(o)} with the parties named {nm}'))
+                break
+        return out
     allf = {x.name: x for x in fam_mod.families()}
     f = allf[case['family']]
     out = []
@@ -492,8 +510,49 @@ def compare(case, iobs, mobs):
 _gen = generate
 
 
+NESTED_NAMINGS = [
+    None,                                                   # 'p0', 'p1', ...
+    ['a', 'ab', 'abc', 'abcd', 'b'],                        # every name contains the previous one
+    ['Left', 'Green Left', 'Left Right', 'Right', 'Green'],
+    ['c1', 'c10', 'c100', 'c2', 'c20'],
+    'ints',
+    ['k4x', 'k3x', 'k2x', 'k1x', 'k0x'],                    # reverses the string order
+]
+
+
+def _gen_by_party(rng, tier):
+    """ByParty (seats by party on the national totals, then allocated to constituencies) on constituency-nested party votes, under
+    renamings of the PARTIES (names containing one another, ints, reversed order) and permutations of constituencies and parties"""
+    for t in range(40 if tier == 'quick' else 600):
+        nc, npar = rng.randint(2, 3), rng.randint(2, 4)
+        votes = [[c, [[p, rng.randint(1, 90)] for p in range(npar) if rng.random() < 0.9 or p == 0]] for c in range(nc)]
+        yield {'op': 'by_party', 'family': 'by_party', 'divisor': rng.choice(['d_hondt', 'sainte_lague']),
+               'alloc': rng.choice([None, 'd_hondt', 'sainte_lague']), 'n': rng.randint(2, 9), 'votes': votes,
+               'orders': [[rng.sample(range(nc), nc), rng.sample(range(npar), npar)] for _ in range(2)],
+               '_tags': ['by_party', 'rename_names_containing_each_other']}
+
+
+def _run_by_party(case, naming, order):
+    import votelib.evaluate.core as vc
+    import votelib.evaluate.proportional as vp
+    name = (lambda p: p) if naming == 'ints' else (lambda p: f'p{p}') if naming is None else (lambda p: naming[p])
+    back = {name(p): p for p in range(5)}
+    corder, porder = order
+    votes = {}
+    cv = dict((c, dict(pv)) for c, pv in case['votes'])
+    for c in corder:
+        votes[f'cty{c}'] = {name(p): cv[c][p] for p in porder if p in cv[c]}
+    ev = vc.ByParty(vp.HighestAverages(case['divisor']), vp.HighestAverages(case['alloc']) if case['alloc'] else None)
+
+    def go():
+        res = ev.evaluate(votes, case['n'])
+        return sorted([int(c[3:]), sorted([back[p] if not isinstance(p, vc.Tie) else {'tie': sorted(back[x] for x in p)}, k]
+                                          for p, k in d.items())] for c, d in res.items())
+    return guarded(go, 10)
+
+
 def generate(rng, tier):    # noqa
-    cases = list(_gen(rng, tier))
+    cases = list(_gen(rng, tier)) + list(_gen_by_party(rng, tier))
     hs = [c for c in cases if c.get('hashseeds')]
     for seed in HASH_SEEDS:
         if hs:
@@ -507,6 +566,9 @@ def generate(rng, tier):    # noqa
 
 
 def describe(case):
+    if case['op'] == 'by_party':
+        return (f"ByParty(HighestAverages({case['divisor']!r}), allocator={case['alloc']!r}).evaluate(votes, {case['n']}) under renamings of the "
+                f"parties {NESTED_NAMINGS[1:]} and orders {case['orders']}; votes (constituency -> party -> count) = {case['votes']}")
     return f"{case['family']}: evaluate(profile, {case['n']}); profile={case['prof']}"
 
 
